@@ -19,7 +19,12 @@ import (
 
 func c06Frame(c *sim.Ctx) (frame []byte, what string) {
 	t := c.T
-	switch t.Pick(5, 3, 2, 3, 2, 2) {
+	switch t.Pick(5, 3, 2, 3, 2, 2, 2) {
+	case 6: // valid body behind a NON-MINIMAL remaining length (1..2 extra continuation bytes)
+		cfg := specCfg(c)
+		cfg.NoHuge = true
+		f, _ := ref.Encode(gen.Packet(t, cfg))
+		return overlongRL(f, 1+t.Int(2)), "overlong-remaining-length"
 	case 4: // a truthful header whose type nibble does not match the body (e.g. a PINGREQ that carries bytes)
 		cfg := specCfg(c)
 		cfg.NoHuge = true
